@@ -3,10 +3,12 @@
 `find_deployment_id` below has two deliberate defects the rules must report:
   * R1: the 63-character cut is not followed by stripping a trailing hyphen, and the random suffix is
         appended after a 60-character cut (60 + 1 + 5 = 66 > 63);
+  * R1 (draw): the suffix characters are drawn from `string.hexdigits`, which also holds A-F: upper-case characters reach the id;
   * R2: the suffix decision looks at the length of the sanitized id, so "a-b" gets no suffix.
 """
 import random
 import re
+import string
 
 
 async def validate_deployment_id(deployment_id: str) -> bool:
@@ -14,7 +16,7 @@ async def validate_deployment_id(deployment_id: str) -> bool:
 
 
 def _append_random_suffix(deployment_id: str, max_length: int) -> str:
-    hex_suffix = "".join(random.choices("0123456789abcdef", k=5))
+    hex_suffix = "".join(random.choices(string.hexdigits, k=5))
     if not deployment_id:
         return "x" + hex_suffix
     return f"{deployment_id[:60]}-{hex_suffix}"
